@@ -1,0 +1,69 @@
+//go:build verif
+// +build verif
+
+// Verification hook H3d (add-only, compiled only with -tags verif): completes a round0 that is
+// waiting with a REAL accepted proposal (round0.Update has stored ccm/bh and subscribed to
+// BlockAddSucc because the parent block is not on the chain yet). It emulates "the parent arrived and
+// the proposal passed the proposer / VRF / group-selection / execution checks" (round0.afterPreArrived
+// and checkBlock need a booted chain): the state checkBlock leaves behind, with the header the round
+// itself holds. No behaviour of existing code paths changes.
+package logical
+
+import (
+	"com.tuntun.rangers/node/src/consensus/model"
+	"com.tuntun.rangers/node/src/middleware/notify"
+	"com.tuntun.rangers/node/src/middleware/types"
+)
+
+// WaitingProposal reports what round0 currently holds: the hash of the proposal being checked and
+// whether round0 is still the party's round and waits for the parent (ccm set, preBH unset).
+func (v *VerifC15Party) WaitingProposal() (hash string, waiting bool) {
+	v.p.lock()
+	defer v.p.unlock()
+	r := v.r0
+	if _, in0 := v.p.rnd.(*round0); !in0 || r.ccm == nil || r.bh == nil {
+		return "", false
+	}
+	return r.bh.Hash.String(), r.preBH == nil
+}
+
+// CompleteWaitingRound0 is FinishRound0 for a round0 that holds a real proposal: bh and ccm stay what
+// round0.Update stored; preBH and group are set, the BlockAddSucc subscription is dropped (as
+// onBlockAddSuccess does), normalPieceVerify sends the member's own share, the party is re-keyed
+// (changedId as in checkBlock) and canProcessed is set; then the first advance()/Start() and the rest
+// of baseParty.Update's loop run exactly as in FinishRound0. Returns the header round0 holds
+// (nil if round0 holds no proposal).
+func (v *VerifC15Party) CompleteWaitingRound0(preBH *types.BlockHeader, group *model.GroupInfo) *types.BlockHeader {
+	v.p.lock()
+	r := v.r0
+	if _, in0 := v.p.rnd.(*round0); !in0 || r.ccm == nil || r.bh == nil {
+		v.p.unlock()
+		return nil
+	}
+	notify.BUS.UnSubscribe(notify.BlockAddSucc, r)
+	r.preBH, r.group = preBH, group
+	bh := r.bh
+	r.normalPieceVerify()
+	hashString := bh.Hash.String()
+	select {
+	case r.changedId <- hashString:
+	default:
+	}
+	r.partyId = hashString
+	v.p.id = hashString
+	r.canProcessed = true
+	failed := false
+	func() {
+		defer v.p.unlock()
+		v.p.advance()
+		v.last, _ = v.p.rnd.(*round1)
+		if err := v.p.round().Start(); err != nil {
+			v.p.Err <- err
+			failed = true
+		}
+	}()
+	if !failed {
+		v.p.Update(verifC15Nop{})
+	}
+	return bh
+}
